@@ -31,17 +31,17 @@ KNOWN_TRIGGERS = {
 
 
 def plans(tier):
-    """(cfg, simulate, depth, label, chain length)"""
+    """(cfg, simulate, depth, label, chain length); -simulate num= is per TLC worker (8 workers)"""
     if tier == "quick":
-        return [("KV_quick.cfg", None, None, "pairs", 150),
-                ("KV_quick_iter.cfg", None, None, "iter", 150),
-                ("KV_quick_tx.cfg", None, None, "tx", 150),
-                ("KV_sim.cfg", "num=250", 81, "walks", 12)]
+        return [("KV_quick.cfg", None, None, "pairs", 100),
+                ("KV_quick_iter.cfg", None, None, "iter", 100),
+                ("KV_quick_tx.cfg", None, None, "tx", 100),
+                ("KV_sim.cfg", "num=19", 83, "walks", 10)]
     return [("KV_thorough.cfg", None, None, "triples", 200),
             ("KV_thorough_z.cfg", None, None, "zero-byte", 200),
             ("KV_thorough_iter.cfg", None, None, "iter", 200),
             ("KV_thorough_tx.cfg", None, None, "tx", 200),
-            ("KV_sim.cfg", "num=4000", 81, "walks", 25)]
+            ("KV_sim.cfg", "num=190", 83, "walks", 20)]
 
 
 # ----------------------------------------------------------------------------- generation
@@ -262,7 +262,8 @@ class Replayer:
             order = [by[d][k] for k in range(max(len(v) for v in by.values())) for d in DRIVERS if k < len(by[d])]
             lines = [dict(lines[i], i=n) for n, i in enumerate(order)]
             meta = [meta[i] for i in order]
-            outs = self.run(lines, call_timeout="3s")
+            outs = self.run(lines, call_timeout="5s")
+            hung_new = []
             for n, (d, part, c) in enumerate(meta):
                 o = outs[n]
                 got = o.get("outs") or []
@@ -272,8 +273,8 @@ class Replayer:
                     results[(d, idx)] = (b, g, c, pos)
                     if g.get("hung"):
                         j = next((j for j, r in enumerate(g["res"]) if r and r.get("t") == "hang"), None)
-                        if j is not None:
-                            hang_shapes[d].add((b["h"][j]["op"], b["h"][j]["w"]))
+                        if j is not None and (b["h"][j]["op"], b["h"][j]["w"]) not in hang_shapes[d]:
+                            hung_new.append((d, idx, b, j))
                 lost = [idx for idx, _ in part[len(got):]]
                 if ("crash" in o or "hang" in o) and len(part) > 1:
                     pending[d] += lost          # retry in chains; a chain of one is the final answer
@@ -283,6 +284,25 @@ class Replayer:
                     results[(d, idx)] = (b, dict(worker=kind, site=o[kind], trace=o.get("trace", "")), c, 0)
                 else:
                     pending[d] += lost
+            # a call that overran the short in-chain deadline is a hang only if it also overruns a generous
+            # deadline alone on a fresh store; otherwise the machine was slow and the history is replayed again
+            if hung_new:
+                pick = {}
+                for d, idx, b, j in hung_new:
+                    pick.setdefault((d, b["h"][j]["op"], b["h"][j]["w"]), (d, idx, b, j))
+                keys = list(pick)
+                o2 = self.run([dict(i=n, drv=pick[k][0], h=wire(pick[k][2]["h"][: pick[k][3] + 1])) for n, k in enumerate(keys)],
+                              jobs=4, call_timeout="30s", sup_timeout="90s")
+                for n, k in enumerate(keys):
+                    r = o2[n]
+                    if r.get("hung") or "hang" in r:
+                        hang_shapes[k[0]].add((k[1], k[2]))
+                    else:
+                        self.ctx.notes.append("slow machine: %s %s [%s] overran 5 s in a chain but returned when re-run alone" % k)
+                for d, idx, b, j in hung_new:
+                    if (b["h"][j]["op"], b["h"][j]["w"]) not in hang_shapes[d]:
+                        del results[(d, idx)]
+                        pending[d].append(idx)
             if attempt >= 1:
                 chain_len = max(1, chain_len // 4)  # whatever keeps killing workers is isolated quickly
         if any(pending.values()):
@@ -380,6 +400,8 @@ def run_check(ctx, rp, corrupt=None):
                 ctx.sample(dict(cfg=cfg, history=[describe(s) + " -> " + ans(s) for s in b["h"]], final=rows(b["f"]),
                                 final_open=b["fo"]))
     merge_inverted(found)
+    for sig, occs in found.items():
+        ctx.log("candidate divergence (%d histories): %s" % (len(occs), sig))
     confirm(ctx, rp, found)
     # ---- evidence
     ops = sorted({(o, w) for _, o, w, _ in shapes_seen})
